@@ -31,7 +31,14 @@ def main():
         if err:
             print("setup: " + err)
             rc = 1
-        err = C.coq_make(["theories/" + p.prop_file[:-2] + ".vo" for p in ps], timeout=3000)
+        targets = ["theories/" + p.prop_file[:-2] + ".vo" for p in ps]
+        for p in ps:
+            if p.extract:     # model files that only the extraction imports
+                for d in C.dep_closure("Extract/" + p.extract[1]):
+                    t = "theories/" + d[:-2] + ".vo"
+                    if not d.startswith("Extract/") and t not in targets:
+                        targets.append(t)
+        err = C.coq_make(targets, timeout=3000)
         if err:
             print("setup: " + err)
             rc = 1
